@@ -91,7 +91,7 @@ func mkBody(ni, si, oi, ri int, rootAP bool) body {
 func bodiesFull(thorough bool) []body {
 	nN, nS, nO, nR := 5, 2, 2, 3
 	if thorough {
-		nN, nS, nO, nR = len(nConstraints), len(sConstraints), len(oConstraints), 5
+		nN, nS, nO, nR = len(nConstraints), len(sConstraints), len(oConstraints), 4
 	}
 	var out []body
 	for ri := 0; ri < nR; ri++ {
@@ -108,10 +108,10 @@ func bodiesFull(thorough bool) []body {
 
 // bodiesReduced: every keyword of the family alone, and combined; these meet
 // every placement and every route. In the thorough tier the reduced list is
-// the quick tier's full list.
+// the first 40 members of the quick tier's full list.
 func bodiesReduced(thorough bool) []body {
 	if thorough {
-		return bodiesFull(false)
+		return bodiesFull(false)[:40] // required sets {} and {n}
 	}
 	var out []body
 	for _, x := range [][4]int{{0, 0, 0, 0}, {1, 0, 0, 0}, {2, 0, 0, 0}, {3, 0, 0, 0}, {4, 0, 0, 0}, {0, 1, 0, 0}, {0, 0, 1, 0},
@@ -148,9 +148,9 @@ func contents(thorough bool) []map[string]any {
 	ss := []any{nil, "a", "z"}
 	os := []any{nil, obj("k", 1.0), obj("k", 1.0, "extra", 2.0)}
 	if thorough {
-		ns = append(ns, 5.0, 6.0, 0.0, true, "1")
-		ss = append(ss, 3.0, "")
-		os = append(os, obj("k", "v"), "str", obj())
+		ns = append(ns, 5.0, 0.0, true)
+		ss = append(ss, 3.0)
+		os = append(os, obj("k", "v"), "str")
 	}
 	var out []map[string]any
 	for _, o := range os {
@@ -185,6 +185,7 @@ func reducedContents() []map[string]any {
 		obj("n", 1.0, "o", obj("k", 1.0, "extra", 2.0)),
 		obj("n", 1.5, "s", "a", "o", obj("k", 1.0)),
 		obj("n", 2.0, "s", "b", "o", "str"),
+		obj("n", 0.0, "s", "b"),
 	}
 }
 
